@@ -71,6 +71,8 @@ def rep(o):
         z3.Implies(nd == 2, mag == d(0) + d(1) * B30),
         z3.Implies(nd == 3, mag == d(0) + d(1) * B30 + d(2) * B30 * B30),
         z3.Implies(nd == 4, mag == d(0) + d(1) * B30 + d(2) * B30 * B30 + d(3) * B30 * B30 * B30),
+        # positional notation: the least significant digit is the magnitude modulo the base (any digit count)
+        z3.Implies(nd >= 1, mag % B30 == d(0)),
         z3.Implies(nd >= 3, mag >= B30 * B30), z3.Implies(nd >= 4, mag >= B30 * B30 * B30),
         z3.Implies(nd >= 5, mag >= B30 * B30 * B30 * B30))
     i = z3.Int("i!rep")
